@@ -257,6 +257,9 @@ def run(chk):
             observe(pn, cn, ctx, r)
     chk.extra["contexts"] = reps + len(jobs)
 
+    # ---- the composed system: TLC-enumerated schedules of evaluations on one State, recorded and validated against System.tla
+    system_traces(chk, thorough, rng)
+
     # ---- impl -> spec: all observations of one program stay in one TLC run
     groups = {}
     for i, l in enumerate(lines):
@@ -281,6 +284,82 @@ def run(chk):
                         "native-stack exhaustion and resource limits are outside the compared behaviour"]
 
 
+SYS_FILES = {"a.libsonnet": "{a: import 'b.libsonnet'}", "b.libsonnet": "{b: 1}", "d.txt": "text", "bad.libsonnet": {"dir": True},
+             "err.libsonnet": "error 'E'"}
+SYS_PROGS = {"p1": ("import 'a.libsonnet'", None), "p2": ("[import 'a.libsonnet', import 'b.libsonnet', importstr 'd.txt']", None),
+             "p3": ("import 'bad.libsonnet'", None), "p4": ("import 'missing.libsonnet'", None), "p5": ("import 'err.libsonnet'", None),
+             "p6": ("local f(n) = 1 + f(n + 1); f(0)", 30), "p7": ("{assert self.a == 2 : 'no', a: 1, b: self.a}", None),
+             "p8": ("local a = [error 'x']; {v: std.length(a)}", None)}
+SYS_NAME = {"a.libsonnet": "a", "b.libsonnet": "b", "d.txt": "d", "bad.libsonnet": "bad", "err.libsonnet": "err", "missing.libsonnet": "missing"}
+
+
+def system_traces(chk, thorough, rng):
+    rs = run_tlc_many([dict(module="MC_System", cfg="MC_System.cfg", workers=4), dict(module="Gen_System", cfg="Gen_System.cfg", workers=4)], parallel=2)
+    chk.add_tlc(rs[0], "System: IdleClean, ReadOnce, EnteredWhileRunning, Functional, Reclaimed, CacheMonotone")
+    chk.add_tlc(rs[1], "System: schedules of evaluations on one state")
+    scheds = sorted({tuple(c["hist"]) for c in rs[1].replay})
+    if not thorough:
+        rng.shuffle(scheds)
+        scheds = scheds[:150]
+    cmds = []
+    for i, sch in enumerate(scheds):
+        steps = []
+        for p in sch:
+            st = {"src": SYS_PROGS[p][0], "want_events": True}
+            if SYS_PROGS[p][1]:
+                st["max_stack"] = SYS_PROGS[p][1]
+            steps.append(st)
+        cmds.append({"cmd": "eval", "id": i, "files": SYS_FILES, "want_events": True, "want_gc": True, "steps": steps})
+    res = run_cmds(cmds, timeout_per_case=60)
+    lines, where = [], []
+    for sch, r in zip(scheds, res):
+        chk.count(("system", sch))
+        def add(e):
+            lines.append(e)
+            where.append(sch)
+        add({"ev": "NewState"})
+        add({"ev": "Enter"})
+        if r["k"] != "seq":
+            add({"ev": "Begin", "p": sch[0]})
+            add({"ev": "End", "out": "crash", "depth": 0, "asserting": 0})
+            # the worker died: the thread's state is gone with it; start the next schedule from a clean model state
+            add({"ev": "Leave", "entered": False})
+            add({"ev": "DropState"})
+            add({"ev": "Collect", "before": 0, "after": 0})
+            continue
+        for p, s in zip(sch, r["results"]):
+            add({"ev": "Begin", "p": p})
+            for e in s.get("events", []):
+                if e.get("site") == "imp" and e.get("what") in ("load", "hit"):
+                    add({"ev": "Load" if e["what"] == "load" else "Hit", "f": SYS_NAME.get((e.get("key") or "").split("/")[-1], "?")})
+            add({"ev": "End", "out": s["k"] if s["k"] in ("val", "err") else "crash", "depth": s.get("depth", 0), "asserting": s.get("asserting", 0)})
+        add({"ev": "Leave", "entered": bool(r.get("entered_after", False))})
+        add({"ev": "DropState"})
+        gc = r.get("gc") or {"before": 0, "after": 0}
+        add({"ev": "Collect", "before": gc["before"], "after": gc["after"]})
+    # one state lifetime after the other in a few long traces (the memo of System spans them all)
+    n = len(lines)
+    chunk = max(1, (n + 5) // 6)
+    groups, cur = [], []
+    for i, e in enumerate(lines):
+        cur.append(i)
+        if e["ev"] == "Collect" and len(cur) >= chunk:
+            groups.append(cur)
+            cur = []
+    if cur:
+        groups.append(cur)
+    seen = set()
+    for li in common.validate_groups(chk, "Trace_System", "Trace_System.cfg", lines, groups, "system", parallel=6):
+        sch = where[li]
+        key = f"c16:system:{'/'.join(sch)}:{lines[li]['ev']}"
+        if key in seen:
+            continue
+        seen.add(key)
+        chk.disagree(key, {"schedule": list(sch), "files": {k: v for k, v in SYS_FILES.items() if isinstance(v, str)}, "programs": {p: SYS_PROGS[p][0] for p in sch}},
+                     "a step of System.tla", {"k": "event", "event": lines[li]}, f"the recorded {lines[li]['ev']} event is not a step of the composed system specification")
+    chk.extra["system_schedules"] = len(scheds)
+
+
 def finish(chk):
     return chk.finish(rule="every program x configuration (hazard programs for hash-order, did-you-mean ties, multiple failure sites, "
                            "std.trace, ext/tla arguments; cyclic/erroring corpora; repository test programs) observed in 5+ fresh "
@@ -290,6 +369,14 @@ def finish(chk):
 
 def replay(case):
     c = case["case"]
+    if "schedule" in c:
+        steps = [{"src": SYS_PROGS[p][0], "want_events": True, **({"max_stack": SYS_PROGS[p][1]} if SYS_PROGS[p][1] else {})} for p in c["schedule"]]
+        r = run_cmds([{"cmd": "eval", "id": 0, "files": SYS_FILES, "want_events": True, "want_gc": True, "steps": steps}])[0]
+        for p, s2 in zip(c["schedule"], r.get("results", [])):
+            print(p, SYS_PROGS[p][0], "=>", s2["k"], [(e["what"], (e.get("key") or "").split("/")[-1]) for e in s2.get("events", []) if e.get("site") == "imp"], "depth", s2.get("depth"), "asserting", s2.get("asserting"))
+        print("gc", r.get("gc"), "entered_after", r.get("entered_after"))
+        print("rejected event:", case["observed"])
+        return 0
     cmd = {"cmd": "eval", "id": 0, "src": c["src"], "want_trace": True}
     cmd.update(c.get("config") or {})
     outs = set()
